@@ -3,7 +3,7 @@
 (* laws are consistent: applied to the results of a flattened collection they give the same value as       *)
 (* applied level by level (sum, min, union are associative; map and filter commute with nesting one level). *)
 EXTENDS Generic, TLC
-Fns == {"Clone", "Round", "project.Geometry", "simplify.DouglasPeucker", "simplify.Visvalingam", "simplify.Radial",
+Fns == {"Clone", "Round", "Round.default", "project.Geometry", "simplify.DouglasPeucker", "simplify.Visvalingam", "simplify.Radial",
         "planar.Area", "planar.Length", "planar.CentroidArea.area", "planar.DistanceFrom", "planar.DistanceFromWithIndex",
         "geo.Area", "geo.Length", "geo.LengthHaversine", "clip.Geometry", "smartclip.Geometry", "tilecover.Geometry",
         "wkb.Marshal", "ewkb.Marshal", "wkt.Marshal", "geojson.Geometry", "geojson.Feature"}
